@@ -6,6 +6,7 @@ import Pypika.Crit
 import Pypika.Build
 import Pypika.Guards
 import Pypika.DDL
+import Pypika.Replace
 /-!
 # JSON → model values (driver side only; no theorem depends on this file)
 -/
